@@ -133,8 +133,47 @@ func parseSingleConstraint(c string) ([]*constraint, error) {
 	return []*constraint{{operator: "=", version: c}}, nil
 }
 
+// partialPattern matches the partial versions node-semver allows as the base of a
+// caret, tilde or hyphen range: "X" or "X.Y" with numeric fields without leading zeros.
+var partialPattern = regexp.MustCompile(`^(0|[1-9][0-9]*)(?:\.(0|[1-9][0-9]*))?$`)
+
+// partialVersion reads a partial version "X" (fields == 1) or "X.Y" (fields == 2).
+func partialVersion(s string) (major, minor, fields int, ok bool) {
+	m := partialPattern.FindStringSubmatch(s)
+	if m == nil {
+		return 0, 0, 0, false
+	}
+	major, err := strconv.Atoi(m[1])
+	if err != nil {
+		return 0, 0, 0, false
+	}
+	if m[2] == "" {
+		return major, 0, 1, true
+	}
+	minor, err = strconv.Atoi(m[2])
+	if err != nil {
+		return 0, 0, 0, false
+	}
+	return major, minor, 2, true
+}
+
 // parseCaretRange handles caret ranges (^1.2.3)
 func parseCaretRange(version string) ([]*constraint, error) {
+	// ^1.2 means >=1.2.0 <2.0.0-0, ^0.2 means >=0.2.0 <0.3.0-0, ^1 and ^0 mean >=X.0.0 <(X+1).0.0-0
+	if major, minor, fields, ok := partialVersion(version); ok {
+		lower := fmt.Sprintf("%d.%d.0", major, minor)
+		if major == 0 && fields == 2 {
+			return []*constraint{
+				{operator: ">=", version: lower},
+				{operator: "<", version: fmt.Sprintf("0.%d.0-0", minor+1)},
+			}, nil
+		}
+		return []*constraint{
+			{operator: ">=", version: lower},
+			{operator: "<", version: fmt.Sprintf("%d.0.0-0", major+1)},
+		}, nil
+	}
+
 	e := &Ecosystem{}
 	v, err := e.NewVersion(version)
 	if err != nil {
@@ -166,6 +205,21 @@ func parseCaretRange(version string) ([]*constraint, error) {
 
 // parseTildeRange handles tilde ranges (~1.2.3)
 func parseTildeRange(version string) ([]*constraint, error) {
+	// ~1.2 means >=1.2.0 <1.3.0-0, ~1 means >=1.0.0 <2.0.0-0
+	if major, minor, fields, ok := partialVersion(version); ok {
+		lower := fmt.Sprintf("%d.%d.0", major, minor)
+		if fields == 2 {
+			return []*constraint{
+				{operator: ">=", version: lower},
+				{operator: "<", version: fmt.Sprintf("%d.%d.0-0", major, minor+1)},
+			}, nil
+		}
+		return []*constraint{
+			{operator: ">=", version: lower},
+			{operator: "<", version: fmt.Sprintf("%d.0.0-0", major+1)},
+		}, nil
+	}
+
 	e := &Ecosystem{}
 	v, err := e.NewVersion(version)
 	if err != nil {
@@ -234,19 +288,28 @@ func parseHyphenRange(rangeStr string) ([]*constraint, error) {
 		return nil, fmt.Errorf("invalid hyphen range: %s", rangeStr)
 	}
 
-	// Validate that both parts are valid versions
+	// A partial lower bound is padded with zeros (1.2 - 2.3.4 means >=1.2.0 <=2.3.4); a partial upper
+	// bound admits everything that starts with it (1.2.3 - 2.3 means >=1.2.3 <2.4.0-0, 1.2.3 - 2 means <3.0.0-0)
 	e := &Ecosystem{}
-	if _, err := e.NewVersion(start); err != nil {
+	lower := &constraint{operator: ">=", version: start}
+	if major, minor, _, ok := partialVersion(start); ok {
+		lower.version = fmt.Sprintf("%d.%d.0", major, minor)
+	} else if _, err := e.NewVersion(start); err != nil {
 		return nil, fmt.Errorf("invalid start version in hyphen range: %s", start)
 	}
-	if _, err := e.NewVersion(end); err != nil {
+	upper := &constraint{operator: "<=", version: end}
+	if major, minor, fields, ok := partialVersion(end); ok {
+		upper.operator = "<"
+		if fields == 2 {
+			upper.version = fmt.Sprintf("%d.%d.0-0", major, minor+1)
+		} else {
+			upper.version = fmt.Sprintf("%d.0.0-0", major+1)
+		}
+	} else if _, err := e.NewVersion(end); err != nil {
 		return nil, fmt.Errorf("invalid end version in hyphen range: %s", end)
 	}
 
-	return []*constraint{
-		{operator: ">=", version: start},
-		{operator: "<=", version: end},
-	}, nil
+	return []*constraint{lower, upper}, nil
 }
 
 // parseSpaceSeparatedConstraints handles space-separated constraints (>=1.0.0 <2.0.0)
